@@ -661,6 +661,15 @@ class WantRply(ProtocolStateBase):
             )
             return  # do not transition, wait until existing timer expires
 
+        # a null log entry names no log_idx (it is always 00): another requester's 'no
+        # such entry' must not be taken for the reply to this RQ (whatever its log_idx)
+        if (
+            self._sent_cmd.rx_header[:8] == "0418|RP|"  # type: ignore[index]
+            and pkt.payload == "000000B0000000000000000000007FFFFF7000000000"
+            and pkt.dst != self._echo_pkt.src
+        ):
+            return
+
         # HACK: special case: if null log entry for log_idx=nn, then
         # HACK: rx_hdr will be 0418|RP|01:145038|00, and not 0418|RP|01:145038|nn
         # HACK: wait_for_reply must be true for RQ|0418 commands
